@@ -42,6 +42,8 @@ ResultShape(kind, sa, sb, axA, axB) ==
                  live |-> <<[shape |-> sa, cells |-> [i \in 1..Prod(sa) |-> 1]], [shape |-> sb, cells |-> [i \in 1..Prod(sb) |-> 1]]>>],
                 kind, 1, 2, axA, axB).shape
 
+OpKind(kind) == IF kind = "TensorMul4" THEN "TensorMul" ELSE kind      \* "TensorMul4" only selects the operand shapes
+
 Combos(kind) ==
     CASE kind = "MatMul"    -> {<<<<m, k>>, <<k, n>>, <<>>, <<>>>> : m \in Dims, k \in Dims, n \in Dims}
       [] kind = "MatVecMul" -> UNION {{<<<<m, k>>, v, <<>>, <<>>>> : v \in VecForms(k)} : <<m, k>> \in Dims \X Dims}
@@ -49,6 +51,10 @@ Combos(kind) ==
       [] kind = "Outer"     -> UNION {{<<v, w, <<>>, <<>>>> : v \in VecForms(m), w \in VecForms(n)} : <<m, n>> \in Dims \X Dims}
       [] kind = "TensorMul" -> UNION {UNION {{<<sa, sb, pr[1], pr[2]>> : pr \in AxisPairs(sa, sb, k)} : k \in 1..2} :
                                         <<sa, sb>> \in Shapes(2, MaxRankT) \X Shapes(2, MaxRankT)}
+      (* general contraction with a rank-4 operand on either side (the other of rank 2-3) *)
+      [] kind = "TensorMul4" -> UNION {UNION {{<<sa, sb, pr[1], pr[2]>> : pr \in AxisPairs(sa, sb, k)} : k \in 1..2} :
+                                        <<sa, sb>> \in {ss \in Shapes(2, MaxRankT) \X Shapes(2, MaxRankT) :
+                                                          (Len(ss[1]) = 4 /\ Len(ss[2]) <= 3) \/ (Len(ss[2]) = 4 /\ Len(ss[1]) <= 3)}}
       [] kind = "Dot"       -> {<<sa, sb, <<>>, <<>>>> : <<sa, sb>> \in
                                    {ss \in Shapes(1, MaxRankT) \X Shapes(1, MaxRankT) : Prod(ss[1]) > 1 /\ Prod(ss[2]) > 1}}
 
@@ -57,11 +63,11 @@ Next ==
     /\ \/ \E kind \in Kinds \ {"Trace"}, la \in LayA, lb \in LayB, ld \in LayD, mode \in Modes :
             \E c \in Combos(kind) :
                /\ LayoutOK(la, c[1]) /\ LayoutOK(lb, c[2])
-               /\ ResultOK(kind, c[1], c[2], c[3], c[4])
+               /\ ResultOK(OpKind(kind), c[1], c[2], c[3], c[4])
                /\ (kind = "Inner" => mode = "safe")
-               /\ (mode \in {"reuse", "incr"} => LayoutOK(ld, ResultShape(kind, c[1], c[2], c[3], c[4])))
+               /\ (mode \in {"reuse", "incr"} => LayoutOK(ld, ResultShape(OpKind(kind), c[1], c[2], c[3], c[4])))
                /\ (mode \notin {"reuse", "incr"} => ld = "C")
-               /\ DoAll(Program(kind, c[1], c[2], la, lb, ld, c[3], c[4], mode))
+               /\ DoAll(Program(OpKind(kind), c[1], c[2], la, lb, ld, c[3], c[4], mode))
        \/ /\ "Trace" \in Kinds
           /\ \E s \in ShapesOfRank(2, MaxDim), la \in LayA :
                /\ LayoutOK(la, s)
